@@ -124,7 +124,7 @@ def explore(run, tier):
                 cfg = copy.deepcopy(pkg)
                 cfg[k]['field_processor'] = proc
                 mx = 99 if cfg[k]['field_type'] == 'LLVAR' else 40
-                for n in range(10 if proc == 'PAN' else 1, min(41, mx + 1)):
+                for n in range(1, min(41, mx + 1)):      # (below 10 characters: for the tie with the model only)
                     codec = ['latin_1', 'cp500', 'cp037'][(n + rep) % 3]
                     kind = 'digits' if (n + rep) % 4 else 'any'
                     pan = iu.text(rng, codec, n, kind)
